@@ -776,8 +776,7 @@ func (t *trial) viol(sig, what string, extra map[string]interface{}) {
 // judged completely.
 func (t *trial) run() (sus *suspicion, judged bool) {
 	r := t.r
-	runtime.GOMAXPROCS(t.procs)
-	defer runtime.GOMAXPROCS(16)
+	defer runtime.GOMAXPROCS(runtime.GOMAXPROCS(t.procs))
 	r.SaveCurrent(t.config())
 	t.start = time.Now()
 	r.Eval(1)
@@ -1010,13 +1009,19 @@ func (t *trial) run() (sus *suspicion, judged bool) {
 		if t.scale > 1 {
 			maxWait = 3*t.timeout + stuckGrace // confirmation runs are about the other subscribers
 		}
+		deadline := time.NewTimer(maxWait) // one common deadline: the blocked sends time out in parallel
+		defer deadline.Stop()
+		expired := false
 		for _, s := range t.subs {
-			if s.pattern != pPermanent || !s.hasEntered() {
+			if s.pattern != pPermanent || !s.hasEntered() || skipMode[t.mode] {
 				continue
 			}
-			select {
-			case <-s.done:
-			case <-time.After(maxWait):
+			if !expired {
+				select {
+				case <-s.done:
+				case <-deadline.C:
+					expired = true
+				}
 			}
 			el := time.Since(s.callAt)
 			if !s.isDone() {
@@ -1450,6 +1455,9 @@ func runEscalating(r *vlib.Run, mode string, num int) {
 			first = sus
 		}
 		r.Count(fmt.Sprintf("suspected_terminations_at_timeout_scale_x%d", sc), 1)
+		if i == 0 {
+			r.Count(fmt.Sprintf("suspected_terminations_first_seen_in_mode_%s_timeout_%v_gomaxprocs_%d", mode, t.timeout, t.procs), 1)
+		}
 	}
 	r.Violation(mode, num, first.sig, first.what+"; reproduced with the send timeout scaled x6 and x30", first.witness)
 	skipMode[mode] = true
